@@ -139,11 +139,11 @@ package prunner
 // ---------------------------------------------------------------------------------------
 // Two-state invariant of job life cycles (section 4.3 of DESIGN.md): holds between entry and exit of
 // every function below, for every job object.
-//@ pure Tjobs() bool = forall j *PipelineJob :: (old(j.Start) != nil ==> j.Start == old(j.Start)) && (old(j.Canceled) ==> j.Canceled) && (old(j.Completed) ==> j.Completed) && (old(jobRunning(j)) && !jobRunning(j) ==> j.Completed)
+//@ pure Tjobs() bool = forall j *PipelineJob :: wasAllocated(j) ==> (old(j.Start) != nil ==> j.Start == old(j.Start)) && (old(j.Canceled) ==> j.Canceled) && (old(j.Completed) ==> j.Completed) && (old(jobRunning(j)) && !jobRunning(j) ==> j.Completed)
 //@ pure progress(r *PipelineRunner, p string) bool = len(r.waitListByPipeline[p]) == 0 || running(r, p) >= conc(r, p) || r.waitListByPipeline[p][0].startTimer != nil
 //@ pure notOnList(r *PipelineRunner, job *PipelineJob) bool = all(r.waitListByPipeline[job.Pipeline], neq, job)
 //@ pure suffixOf(a []*PipelineJob, b []*PipelineJob) bool = base(a) == base(b) && off(a) >= off(b) && off(a) + len(a) == off(b) + len(b)
-//@ pure Tcanceled() bool = forall j *PipelineJob :: old(j.Canceled) || old(j.Start) != nil ==> j.Start == old(j.Start) && j.LastError == old(j.LastError) && j.sched == old(j.sched) && j.startTimer == old(j.startTimer) && j.Canceled == old(j.Canceled)
+//@ pure Tcanceled() bool = forall j *PipelineJob :: wasAllocated(j) && (old(j.Canceled) || old(j.Start) != nil) ==> j.Start == old(j.Start) && j.LastError == old(j.LastError) && j.sched == old(j.sched) && j.startTimer == old(j.startTimer) && j.Canceled == old(j.Canceled)
 
 //@ func buildJobTasks
 //@   lockmode any
@@ -258,3 +258,30 @@ package prunner
 //@   at call (*PipelineRunner).JobCompleted#1: assert [C01.order] $scheduleReturned
 
 //@ ghost $scheduleReturned scalar Bool
+
+//@ pure lastOf(s []*PipelineJob) *PipelineJob = s[len(s)-1]
+//@ pure samePrefix(a []*PipelineJob, n int) bool = forall k :: 0 <= k && k < n ==> a[k] == old(a[k])
+
+//@ func (*PipelineRunner).ScheduleAsync$1
+//@   lockmode none
+
+//@ func (*PipelineRunner).ScheduleAsync
+//@   lockmode none
+//@   ensures  [C11.refuse] old(r.isShuttingDown) ==> res1 == ErrShuttingDown
+//@   ensures  [C15.reject] old(r.isShuttingDown) || !old(defined(r, pipeline)) || old(admit(r, pipeline, false)) == scheduleActionNoQueue || old(admit(r, pipeline, false)) == scheduleActionQueueFull ==> res1 != nil
+//@   ensures  [C15.accept] !old(r.isShuttingDown) && old(defined(r, pipeline)) && old(admit(r, pipeline, false)) != scheduleActionNoQueue && old(admit(r, pipeline, false)) != scheduleActionQueueFull && res1 != nil ==> $uuidFailed
+//@   ensures  [C05.noQueue] !old(r.isShuttingDown) && old(defined(r, pipeline)) && old(admit(r, pipeline, false)) == scheduleActionNoQueue ==> res1 == errNoQueue
+//@   ensures  [C05.queueFull] !old(r.isShuttingDown) && old(defined(r, pipeline)) && old(admit(r, pipeline, false)) == scheduleActionQueueFull ==> res1 == errQueueFull
+//@   ensures  [C05.noTrace] res1 != nil ==> res0 == nil && unchangedHeap()
+//@   ensures  [C15.registered] res1 == nil ==> res0 != nil && fresh(res0) && (res0.ID in r.jobsByID) && r.jobsByID[res0.ID] == res0 && (forall i uuid.UUID :: i == res0.ID ==> !old(i in r.jobsByID)) && len(r.jobsByPipeline[pipeline]) == old(len(r.jobsByPipeline[pipeline])) + 1 && lastOf(r.jobsByPipeline[pipeline]) == res0
+//@   ensures  [C16.snapshot] res1 == nil ==> res0.Pipeline == pipeline && res0.Env == old(r.defs.Pipelines[pipeline].Env) && res0.StartDelay == old(r.defs.Pipelines[pipeline].StartDelay) && res0.Variables == opts.Variables && res0.User == opts.User && !res0.Completed
+//@   ensures  [C05.queue] res1 == nil && old(admit(r, pipeline, false)) == scheduleActionQueue ==> len(r.waitListByPipeline[pipeline]) == old(len(r.waitListByPipeline[pipeline])) + 1 && lastOf(r.waitListByPipeline[pipeline]) == res0 && res0.Start == nil && !res0.Canceled && (forall k :: 0 <= k && k < old(len(r.waitListByPipeline[pipeline])) ==> r.waitListByPipeline[pipeline][k] == old(r.waitListByPipeline[pipeline][k]))
+//@   ensures  [C05.replace] res1 == nil && old(admit(r, pipeline, false)) == scheduleActionReplace ==> len(r.waitListByPipeline[pipeline]) == old(len(r.waitListByPipeline[pipeline])) && lastOf(r.waitListByPipeline[pipeline]) == res0 && res0.Start == nil && !res0.Canceled && old(lastOf(r.waitListByPipeline[pipeline])).Canceled && old(lastOf(r.waitListByPipeline[pipeline])).startTimer == nil && (old(lastOf(r.waitListByPipeline[pipeline]).startTimer) != nil ==> $stopped[old(lastOf(r.waitListByPipeline[pipeline]).startTimer)]) && (forall k :: 0 <= k && k < old(len(r.waitListByPipeline[pipeline])) - 1 ==> r.waitListByPipeline[pipeline][k] == old(r.waitListByPipeline[pipeline][k]))
+//@   ensures  [C05.start] res1 == nil && old(admit(r, pipeline, false)) == scheduleActionStart ==> suffixOf(r.waitListByPipeline[pipeline], old(r.waitListByPipeline[pipeline])) && (res0.Start != nil || res0.Canceled)
+//@   ensures  [C07.delayed] res1 == nil && res0.StartDelay > 0 ==> old(admit(r, pipeline, false)) != scheduleActionStart && res0.startTimer != nil && $armedDelay[res0.startTimer] == res0.StartDelay && !$stopped[res0.startTimer]
+//@   ensures  [C07.noDelay] res1 == nil && res0.StartDelay <= 0 ==> res0.startTimer == nil
+//@   ensures  [C11.persist] res1 == nil ==> $persist
+//@   ensures  [T] Tjobs()
+//@   ensures  [defs] r.defs == old(r.defs)
+//@   at call (*PipelineRunner).startJob#1: assert [cntPrefix] cnt(r.jobsByPipeline[pipeline][:len(r.jobsByPipeline[pipeline])-1], jobRunning) == old(running(r, pipeline))
+//@   at call (*PipelineRunner).startJob#1: assert [cntLast] running(r, pipeline) == cnt(r.jobsByPipeline[pipeline][:len(r.jobsByPipeline[pipeline])-1], jobRunning)
